@@ -73,6 +73,7 @@ type Replica struct {
 	term  uint64 // last HardState.Term emitted / restored
 	hsCur pb.HardState
 
+	more            bool         // last Ready said MoreCommittedEntries
 	leaderMsgs      int          // MsgApp/MsgHeartbeat/MsgSnap stepped in since the last StepNode
 	removedAsNonLdr bool         // applied a RemoveNode in its last Ready while not leader
 	stepConf        pb.ConfState // configuration in effect when the current Ready was produced
@@ -434,6 +435,7 @@ func (s *Sim) cycle(r *Replica, crashPos int, mask uint64, onlyAt uint64) {
 	r.pendingTicks, r.pendingIn = 0, 0
 	leaderMsgs := r.leaderMsgs
 	r.leaderMsgs = 0
+	r.more = has && rd.MoreCommittedEntries
 	if !has {
 		return
 	}
